@@ -450,6 +450,22 @@ func (f *indexFetcher) newInIndexIterator(
 		return nil, NewErrInvalidInOperatorValue(err)
 	}
 
+	// a value that is listed more than once must not make its documents come out more than once
+	uniqueValues := make([]client.NormalValue, 0, len(inValues))
+	for _, val := range inValues {
+		isDuplicate := false
+		for _, uniqueVal := range uniqueValues {
+			if val.Equal(uniqueVal) {
+				isDuplicate = true
+				break
+			}
+		}
+		if !isDuplicate {
+			uniqueValues = append(uniqueValues, val)
+		}
+	}
+	inValues = uniqueValues
+
 	// iterators for _in filter already iterate over keys with first field value
 	// matching the filter value, so we can skip the first matcher
 	if len(matchers) > 1 {
